@@ -63,7 +63,15 @@ Example C14_ex_affine :
   Forall (Forall (fun v => v = 0%Z)) (diff2 (att2 1 [[0];[5];[9];[14];[19]]%Z [[1];[7];[14];[21];[0]]%Z)).
 Proof. vm_compute. repeat constructor. Qed.
 
+(* nothing is reordered, repeated or invented: the shifted forward channel is the original with exactly |i| samples cut from
+   one end, the shifted backward channel the original with exactly |i| samples cut from the other end *)
+Theorem C14_shift_cuts_opposite_ends {A} i (l : list A) : (Z.abs i <= Z.of_nat (length l))%Z ->
+  exists cut_fw cut_bw, length cut_fw = Z.to_nat (Z.abs i) /\ length cut_bw = Z.to_nat (Z.abs i) /\
+    if (i <? 0)%Z then l = shift_fw i l ++ cut_fw /\ l = cut_bw ++ shift_bw i l
+    else l = cut_fw ++ shift_fw i l /\ l = shift_bw i l ++ cut_bw.
+Proof. exact (shift_is_contiguous i l). Qed.
+
 Print Assumptions C14_length. Print Assumptions C14_pairing_nonneg. Print Assumptions C14_pairing_neg.
 Print Assumptions C14_dataset. Print Assumptions C14_zero. Print Assumptions C14_compose_nonneg.
 Print Assumptions C14_compose_neg. Print Assumptions C14_there_and_back. Print Assumptions C14_suggest_in_irange.
-Print Assumptions C14_affine_is_optimal_partial.
+Print Assumptions C14_affine_is_optimal_partial. Print Assumptions C14_shift_cuts_opposite_ends.
